@@ -3538,6 +3538,7 @@ static size_t ZSTDv06_decompressFrame(ZSTDv06_DCtx* dctx,
         {
         case bt_compressed:
             decodedSize = ZSTDv06_decompressBlock_internal(dctx, op, oend-op, ip, cBlockSize);
+            if (!ZSTDv06_isError(decodedSize) && decodedSize > ZSTDv06_BLOCKSIZE_MAX) return ERROR(corruption_detected);   /* ZSTD_decompressBound() counts on it */
             break;
         case bt_raw :
             decodedSize = ZSTDv06_copyRawBlock(op, oend-op, ip, cBlockSize);
